@@ -2,8 +2,9 @@
    Theorem / exact / Print Assumptions only; proofs in Proofs.FingerprintProofs, model in Model.Fingerprint,
    hash model in Model.PyHash. *)
 From Coq Require Import String ZArith List Bool Permutation.
-From Model Require Import PyBase Graph PyHash Fingerprint FingerprintCGR LinearSmiles FingerprintVec MorganSmiles.
-From Proofs Require Import FingerprintProofs FingerprintCGRProofs MorganNbhd MorganNbhdCGR LinearSmilesProofs LinearSmilesFixed FingerprintVecProofs MorganSmilesProofs.
+From Model Require Import PyBase Graph PyHash Fingerprint FingerprintCGR LinearSmiles FingerprintVec MorganSmiles LinearSpell LinearSmilesFull.
+From Proofs Require Import FingerprintProofs FingerprintCGRProofs MorganNbhd MorganNbhdCGR LinearSmilesProofs LinearSmilesFixed FingerprintVecProofs MorganSmilesProofs LinearSpellProofs FingerprintConstsProofs.
+From Gen Require Import FingerprintConsts.
 Import ListNotations.
 Open Scope Z_scope.
 
@@ -732,3 +733,85 @@ Theorem C17_morgan_hash_smiles_witness :
   cs_numbering_independent (fun _ _ => "*"%string).
 Proof. exact morgan_hash_smiles_witness. Qed.
 Print Assumptions C17_morgan_hash_smiles_witness.
+
+(* ==================================================================================================== *)
+(* ROUND 3 (1): the spelling of an atom / a bond used by linear_hash_smiles (_format_atom(n, None, stereo=False),
+   _format_bond(n, m, None, stereo=False, aromatic=False)) is INSIDE the model now (Model.LinearSpell, over the element,
+   charge and organic-subset tables regenerated from the source); linear_hash_smiles_model / linear_hash_smiles_fixed_model /
+   linear_smiles_hash_model are functions of the molecule and of the iteration order chs of the chain set only. *)
+
+(* the spelling of an atom / a bond does not depend on the numbering *)
+Theorem C17_spelling_rename : forall (s : Z -> Z), (forall x y, s x = s y -> x = y) -> forall g n m,
+  lhs_fa (rename_mol s g) (s n) = lhs_fa g n /\ lhs_fb (rename_mol s g) (s n) (s m) = lhs_fb g n m.
+Proof. exact (fun s Hs g n m => conj (lhs_fa_rename s Hs g n) (lhs_fb_rename s Hs g n m)). Qed.
+Print Assumptions C17_spelling_rename.
+
+Theorem C17_lhs_model_numbering_independent_unfold : forall f, lhs_model_numbering_independent f <->
+  forall (h : list Z -> Z) (s : Z -> Z) g lo hi nbp chs chs',
+    (forall x y, s x = s y -> x = y) -> wf_mol g = true ->
+    Permutation chs (chains g lo hi) -> Permutation chs' (chains (rename_mol s g) lo hi) ->
+    forall k str, In str (sget (f h g chs nbp) k) <-> In str (sget (f h (rename_mol s g) chs' nbp) k).
+Proof. exact (fun f => iff_refl _). Qed.
+Print Assumptions C17_lhs_model_numbering_independent_unfold.
+
+(* the repair with chython's own spelling: numbering independent, no hypothesis on the spelling left *)
+Theorem C17_linear_hash_smiles_fixed_model_numbering_independent : lhs_model_numbering_independent linear_hash_smiles_fixed_model.
+Proof. exact linear_hash_smiles_fixed_model_numbering_independent. Qed.
+Print Assumptions C17_linear_hash_smiles_fixed_model_numbering_independent.
+
+(* the code as it is: refuted; the model now SPELLS '[O-]' / '[OH-]' from the hydrogen counts of the two oxygens *)
+Theorem C17_linear_hash_smiles_model_numbering_refuted : ~ lhs_model_numbering_independent linear_hash_smiles_model.
+Proof. exact linear_hash_smiles_model_numbering_refuted. Qed.
+Print Assumptions C17_linear_hash_smiles_model_numbering_refuted.
+
+Theorem C17_spell_witness :
+  lhs_fa w_mol 1 = "C"%string /\ lhs_fa w_mol 2 = "[O-]"%string /\ lhs_fa w_mol 3 = "[OH-]"%string /\
+  lhs_fa (rename_mol w_swap w_mol) 2 = "[OH-]"%string /\ lhs_fa (rename_mol w_swap w_mol) 3 = "[O-]"%string /\
+  linear_hash_smiles_model hash_ztuple w_mol w_chs 4 =
+    [(4844287390989025609, ["C"%string]); (8876755388055710236, ["[O-]"%string]); (-3062347929551842955, ["[O-]"%string])] /\
+  linear_hash_smiles_model hash_ztuple (rename_mol w_swap w_mol) w_chs 4 =
+    [(4844287390989025609, ["C"%string]); (8876755388055710236, ["[OH-]"%string]); (-3062347929551842955, ["[OH-]"%string])] /\
+  linear_smiles_hash_model hash_ztuple w_mol w_chs 4 =
+    [("C"%string, [4844287390989025609]); ("[O-]"%string, [8876755388055710236; -3062347929551842955])].
+Proof. exact spell_witness. Qed.
+Print Assumptions C17_spell_witness.
+
+(* linear_smiles_hash (was: search only) is the transposed dictionary *)
+Theorem C17_linear_smiles_hash_model_get : forall (h : list Z -> Z) g chs nbp s k,
+  In k (strget (linear_smiles_hash_model h g chs nbp) s) <-> exists vs, In (k, vs) (linear_hash_smiles_model h g chs nbp) /\ In s vs.
+Proof. exact linear_smiles_hash_model_get. Qed.
+Print Assumptions C17_linear_smiles_hash_model_get.
+
+(* spelling rules on chython's values: pyrrole N, aromatic C, isotope, charge, elemental C, metal on a coordination bond,
+   radical, P-H, charge outside the table, the five bond orders *)
+Theorem C17_spell_examples :
+  spell_atom_of (mkAtom 7 None 0 false (Some 1) None) [(1, mkBond 4 None); (2, mkBond 4 None)] = Ok "[nH]"%string /\
+  spell_atom_of (mkAtom 6 None 0 false (Some 1) None) [(1, mkBond 4 None); (2, mkBond 4 None)] = Ok "c"%string /\
+  spell_atom_of (mkAtom 6 (Some 13) 0 false (Some 4) None) [] = Ok "[13CH4]"%string /\
+  spell_atom_of (mkAtom 7 None 1 false (Some 4) None) [] = Ok "[NH4+]"%string /\
+  spell_atom_of (mkAtom 6 None 0 false (Some 0) None) [] = Ok "[C]"%string /\
+  spell_atom_of (mkAtom 29 None 0 false (Some 0) None) [(1, mkBond 8 None)] = Ok "[Cu]"%string /\
+  spell_atom_of (mkAtom 6 None 0 true (Some 3) None) [] = Ok "[CH3]"%string /\
+  spell_atom_of (mkAtom 15 None 0 false (Some 1) None) [(1, mkBond 2 None); (2, mkBond 1 None); (3, mkBond 1 None)] = Ok "[PH]"%string /\
+  spell_atom_of (mkAtom 8 None 5 false (Some 0) None) [] = Err KeyError /\
+  map spell_bond_of [1; 2; 3; 4; 8] = [""; "="; "#"; ":"; "~"]%string.
+Proof. exact spell_examples. Qed.
+Print Assumptions C17_spell_examples.
+
+(* ==================================================================================================== *)
+(* ROUND 3 (2): constants, tuple layouts and branch constants regenerated from the source on every run
+   (tools/gen_fingerprints.py -> Gen.FingerprintConsts) agree with what the hand-written models use *)
+Theorem C17_generated_constants_agree :
+  fpc_cap = cap 0 /\
+  fpc_linear_fold = model_fold /\ fpc_morgan_fold = model_fold /\
+  (forall len nab tpl, fold_bits len nab tpl =
+     Z.land tpl (len - 1) ::
+     (if nab =? eqK fpc_linear_fold then [Z.land (Z.shiftr tpl (Z.log2 len)) (len - 1)]
+      else if gtK fpc_linear_fold <? nab then shift_loop (Z.to_nat (nab - 1)) (Z.log2 len) (len - 1) tpl
+      else [])) /\
+  fpc_morgan_asserts = ["min_radius >= 1"; "max_radius >= min_radius"]%string /\
+  fpc_mol_fields = model_mol_fields /\ fpc_cgr_fields = model_cgr_fields /\ fpc_dynbond_fields = model_dynbond_fields /\
+  forallb (fun p => String.eqb (spell_bond_of (fst p)) (snd p)) fpc_bond_spelling = true /\
+  (forall o, ~ In o (map fst fpc_bond_spelling) -> spell_bond_of o = fpc_bond_default).
+Proof. exact generated_constants_agree. Qed.
+Print Assumptions C17_generated_constants_agree.
